@@ -60,11 +60,12 @@ def replay_chunk(items, root, seed):
             cdir = os.path.join(w.dir, 'convolved')
             shutil.rmtree(cdir, ignore_errors=True)
             kw = {'max_ram': (c + 0.5) * 8.0 * nm * max(na, 1) / 1024.0 ** 3}
+            wunit = [u.micron, u.nm, u.angstrom, u.mm][(bi + seed) % 4]         # the window may be given in any unit of length
             if lo > 0:
-                kw['wav_min'] = lo * WUNIT * u.micron
+                kw['wav_min'] = (lo * WUNIT * u.micron).to(wunit)
             if hi < 2 * n + 2:
-                kw['wav_max'] = hi * WUNIT * u.micron
-            desc = {'n_wav': n, 'chunk': c, 'window_um': [lo * WUNIT if lo > 0 else None, hi * WUNIT if hi < 2 * n + 2 else None],
+                kw['wav_max'] = (hi * WUNIT * u.micron).to(wunit)
+            desc = {'n_wav': n, 'chunk': c, 'window_unit': str(wunit), 'window_um': [lo * WUNIT if lo > 0 else None, hi * WUNIT if hi < 2 * n + 2 else None],
                     'wavelengths_um_by_file_index': [WUNIT * 2 * (n - j) for j in range(n)], 'n_models': nm, 'n_ap': na, 'behaviour': b}
             try:
                 with fw.quiet():
